@@ -56,7 +56,7 @@ def run(tier, seed, replay=None):
                 "disk-only/statusless/path characters) is sent as several seeded concrete byte strings on fresh Unix and TCP sessions; then every "
                 "TLC-enumerated pair of sessions (%d pairs of <= %s x <= 1 lines over 14 line kinds) is replayed alternating and/or truly concurrent, "
                 "within the time budget. distinct = distinct (class, concrete bytes) inputs + distinct (session pair, mode)" % (nlines, npairs, "2" if quick else "3"),
-        "samples": res["samples"][:10], "exhaustive": False,
+        "samples": (res.get("samples") or [{"note": "run stopped before sampling"}])[:10], "exhaustive": False,
         "line_classes": nlines, "session_pairs_enumerated": npairs, "session_pairs_replayed": c.get("pair_vectors", 0),
         "states": rl.distinct + rs.distinct, "transitions": rl.generated + rs.generated,
         "counters": c, "witnesses": wit, "notes": res.get("notes", [])[:40],
